@@ -195,11 +195,11 @@ def run(rep, tier, seed):
         rep.encoded("src/basilisp/lang/" + f, qs, "executed under CrossHair (pyrsistent / immutables cores run concretely)")
     rep.encoded_lisp("src/basilisp/core.lpy", ["conj", "assoc", "dissoc", "disj", "pop", "peek", "into", "empty", "with-meta", "merge", "transient", "persistent!"], "compiled from source")
     nops = 2 if quick else 3
-    to = 90 if quick else 600
+    to = 90 if quick else 240
     specs = []
     for kind in ("vector", "map", "set", "list", "queue"):
         big = {"vector": 34, "map": 4}.get(kind, 3)
-        seeds = (big,) if quick else ((0, 4, 34) if kind == "map" else (0, big))
+        seeds = (big,) if quick else ((4, 34) if kind == "map" else (big,))
         for sd in seeds:
             if quick:
                 # length 2 on the reduced domain (4 keys incl. nil, values 0/nil) + every single operation on the full domain
